@@ -16,3 +16,82 @@ Proof.
   exists 2, wit_mn, wit_mx, (mkOpts 6 0 0), wit_mn, (inject_Z (2 ^ 128)).
   repeat split; try (vm_compute; congruence); try lia.
 Qed.
+
+(* ---------- rational facts behind the slack decision ---------- *)
+Local Open Scope Q_scope.
+Lemma q_inv_mul t : 0 < t -> t * (1 / t) == 1.
+Proof. intros H. field. lra. Qed.
+Lemma q_div_mul x y : 0 < y -> (x / y) * y == x.
+Proof. intros H. field. lra. Qed.
+
+Lemma ln_lo_mono t t' : 0 < t -> t <= t' -> ln_lo t <= ln_lo t'.
+Proof.
+  intros H L. unfold ln_lo. pose proof (q_inv_mul t H) as E. pose proof (q_inv_mul t' ltac:(lra)) as E'.
+  set (u := 1 / t) in *. set (u' := 1 / t') in *.
+  assert (U : 0 < u) by nra. assert (U' : 0 < u') by nra.
+  assert (u' <= u); [|lra]. nra.
+Qed.
+Lemma ln_lo_lt1 t : 0 < t -> ln_lo t < 1.
+Proof. intros H. unfold ln_lo. pose proof (q_inv_mul t H) as E. set (u := 1 / t) in *. assert (0 < u) by nra. lra. Qed.
+Lemma ln_lo_le_hi t : 0 < t -> ln_lo t <= ln_hi t.
+Proof.
+  intros H. unfold ln_hi, Qminb. destruct (Qle_bool _ _).
+  - unfold ln_lo. pose proof (q_inv_mul t H) as E. set (u := 1 / t) in *. assert (U : 0 < u) by nra.
+    assert (S2 : 0 <= (t - 1) * (t - 1)) by (destruct (Qlt_le_dec t 1); [setoid_replace ((t-1)*(t-1)) with ((1-t)*(1-t)) by ring|]; apply Qmult_le_0_compat; lra).
+    assert (S3 : 0 <= u * ((t - 1) * (t - 1))) by (apply Qmult_le_0_compat; lra).
+    assert (S4 : u * ((t - 1) * (t - 1)) == (t * u) * t - 2 * (t * u) + u) by ring.
+    rewrite E in S4. lra.
+  - apply Qle_trans with 1; [apply Qlt_le_weak, ln_lo_lt1, H|].
+    change 1 with (inject_Z 1). rewrite <- Zle_Qle. pose proof (Z.log2_nonneg (Qceil t)). lia.
+Qed.
+Lemma slack_factor_pos : 0 < slack_factor. Proof. reflexivity. Qed.
+Lemma slack_factor_small : slack_factor <= 1 # 10. Proof. unfold slack_factor, Qle. cbn. lia. Qed.
+Lemma qbits_ge2 q : 2 <= qbits q.
+Proof. unfold qbits. change 2 with (inject_Z 2). rewrite <- Zle_Qle.
+  pose proof (Z.log2_nonneg (Z.abs (Qnum q))). pose proof (Z.log2_nonneg (Zpos (Qden q))). lia. Qed.
+Lemma log_mu_pos a c : 0 < log_mu a c.
+Proof. unfold log_mu. pose proof (qbits_ge2 a). pose proof (qbits_ge2 c).
+  assert (0 < 2 # 1000000000000000) by reflexivity. nra. Qed.
+
+Lemma q_div_le_mono a a0 x0 c : 0 < a -> a <= a0 -> 0 < x0 -> x0 <= c -> x0 / a0 <= c / a.
+Proof.
+  intros A L X C. pose proof (q_div_mul x0 a0 ltac:(lra)) as E. pose proof (q_div_mul c a A) as E'.
+  set (u := x0 / a0) in *. set (v := c / a) in *.
+  assert (U : 0 < u) by nra. destruct (Qlt_le_dec v u) as [G|G]; [|exact G]. exfalso. nra.
+Qed.
+Lemma q_div_pos x y : 0 < x -> 0 < y -> 0 < x / y.
+Proof. intros X Y. pose proof (q_div_mul x y Y) as E. set (u := x / y) in *. nra. Qed.
+
+(* a decision that was INSIDE cannot become OUTSIDE when the domain grows (whatever the two mu) *)
+Lemma near_inside_mono s bg t mu t' mu' : 0 < s -> s <= bg -> 0 < t -> t <= t' -> 0 < mu -> 0 < mu' ->
+  near s bg t mu = N_inside -> near s bg t' mu' <> N_outside.
+Proof.
+  intros S L T TT M M' Hin. unfold near in *.
+  destruct (Qleb ((bg - s) / s) (slack_factor * ln_lo t - mu)) eqn:E1; [|destruct (Qleb _ _) in Hin; discriminate].
+  destruct (Qleb ((bg - s) / s) (slack_factor * ln_lo t' - mu')) eqn:E2; [discriminate|].
+  destruct (Qleb (slack_factor * ln_hi t' + mu') ((bg - s) / bg)) eqn:E3; [|discriminate].
+  exfalso. gb_bool.
+  pose proof (q_div_mul (bg - s) s S) as X. pose proof (q_div_mul (bg - s) bg ltac:(lra)) as Y.
+  set (x := (bg - s) / s) in *. set (y := (bg - s) / bg) in *.
+  assert (X0 : 0 <= x) by nra.
+  assert (YX : y <= x). { destruct (Qlt_le_dec x y) as [G|G]; [|exact G]. exfalso. nra. }
+  pose proof (ln_lo_mono t t' T TT). pose proof (ln_lo_le_hi t' ltac:(lra)). pose proof slack_factor_pos. nra.
+Qed.
+
+(* two INSIDE decisions around one end (just above b^n and just below b^(n+1)) exclude each other *)
+Lemma near_inside_both_impossible x y z t1 mu1 t2 mu2 : 0 < x -> x <= y -> y <= z -> 2 * x <= z ->
+  0 < t1 -> 0 < t2 -> 0 < mu1 -> 0 < mu2 ->
+  near x y t1 mu1 = N_inside -> near y z t2 mu2 = N_inside -> False.
+Proof.
+  intros X XY YZ XZ T1 T2 M1 M2 H1 H2. unfold near in *.
+  destruct (Qleb ((y - x) / x) _) eqn:E1; [|destruct (Qleb _ _) in H1; discriminate].
+  destruct (Qleb ((z - y) / y) _) eqn:E2; [|destruct (Qleb _ _) in H2; discriminate].
+  gb_bool. pose proof (q_div_mul (y - x) x X) as A. pose proof (q_div_mul (z - y) y ltac:(lra)) as B.
+  set (p := (y - x) / x) in *. set (q := (z - y) / y) in *.
+  pose proof (ln_lo_lt1 t1 T1). pose proof (ln_lo_lt1 t2 T2). pose proof slack_factor_pos. pose proof slack_factor_small.
+  assert (P : p <= 1 # 10) by nra. assert (Q : q <= 1 # 10) by nra.
+  assert (P0 : 0 <= p) by nra. assert (Q0 : 0 <= q) by nra.
+  (* y = x (1 + p), z = y (1 + q) <= x * 1.21 < 2 x *)
+  assert (y <= x * (11 # 10)) by nra. assert (z <= y * (11 # 10)) by nra. nra.
+Qed.
+Local Close Scope Q_scope.
